@@ -242,16 +242,17 @@ def apply_op(op, model, log):
             except sf.DecoderError:
                 pass
     elif kind == 'rejected_calls':
-        for p in (REJECTS_ENC if arg == 0 else REJECTS_ENC[::-1]):
-            for kw in ({}, {'strict': False}, {'attribute': True}):
+        for k_, p in enumerate(REJECTS_ENC if arg == 0 else REJECTS_ENC[::-1]):
+            for kw in (({}, {'strict': False}, {'attribute': True})[k_ % 3],):
                 try:
                     sf.encoder(p, **kw)
                 except Exception:
                     pass
         # the LAST call of this step is a rejected one that had already queued a ring bond: whatever it leaves behind
         # is met by the probes that follow
-        for p in ODD_DEC + REJECTS_DEC:
-            for kw in ({'attribute': True}, {'compatible': True}, {}):
+        for k_, p in enumerate(ODD_DEC + REJECTS_DEC):
+            kws = ({'attribute': True}, {'compatible': True}, {})
+            for kw in (kws if k_ >= len(ODD_DEC) + len(REJECTS_DEC) - 3 else (kws[k_ % 3],)):
                 try:
                     with warnings.catch_warnings():
                         warnings.simplefilter('ignore')
@@ -395,12 +396,15 @@ def floor(ctx, pid):
     presets = fr[json.dumps('default')]['presets']
     _CTX['fresh'], _CTX['presets'] = fresh, presets
     ops = ops_palette()
-    L = 2 if ctx.tier == 'quick' else 3
+    L = 2
     seqs = []
     for n in range(1, L + 1):
         seqs += list(itertools.product(ops, repeat=n))
     rnd = random.Random(ctx.seed)
-    for _ in range(600 if ctx.tier == 'quick' else 6000):
+    if ctx.tier != 'quick':
+        # length 3: a seeded sample (the full cube of the palette grew to 22 000 sequences of ever heavier steps)
+        seqs += [tuple(rnd.choice(ops) for _ in range(3)) for _ in range(5000)]
+    for _ in range(600 if ctx.tier == 'quick' else 3000):
         seqs.append(tuple(rnd.choice(ops) for _ in range(rnd.choice([3, 4, 6]))))
     rnd.shuffle(seqs)
     res = pmap(_work, chunks(seqs, 32))
@@ -416,7 +420,7 @@ def floor(ctx, pid):
                 b['detail'] = 'translation behaviour changed in a history with a rejected update: ' + b['detail']
                 viol.append(b)
     return {'evaluations': sum(r[0] for r in res), 'distinct_nontrivial': len(seqs),
-            'rule': 'all API call sequences of length <= %d over a %d-operation palette (set preset / custom / invalid '
+            'rule': 'all API call sequences of length <= %d (thorough: plus 5000 sampled sequences of length 3) over a %d-operation palette (set preset / custom / invalid '
                     'table, caller mutating the dict it passed, get table / preset / alphabet and mutate the result, '
                     'decode and encode probes incl. failing calls and H-rich symbols) plus seeded sequences of length '
                     '3-6; after every step the table, presets, alphabet, %d decoder probes and %d encoder probes are '
